@@ -1082,3 +1082,45 @@ func involvesTermSlice(seen map[ssa.Value]bool, isTermSlice func(types.Type) boo
 	}
 	return false
 }
+
+// ---------------------------------------------------------------------------
+// R-OCCURS-CHECK-ALWAYS (C02; added after seed C02i): unify_with_occurs_check/2 is "unification with the occurs
+// check" for EVERY pair of terms - whether a pair is subject to occurs check cannot be told from "no variable in
+// common" (f(X, X) and f(Y, g(Y)) have none). The Go function registered for it reaches the unifier only with the
+// check switched on: neither it nor its closures call the plain unification (the built-in Unify, Env.Unify).
+func ruleOccursCheckAlways(c *Ctx, r *Report) {
+	const rule = "R-OCCURS-CHECK-ALWAYS"
+	desc := "unify_with_occurs_check/2 never falls back to unification without the check"
+	fn := c.registeredFn("unify_with_occurs_check", 2)
+	if fn == nil {
+		r.undecided(rule, "anchor:unify_with_occurs_check/2", "-", desc, "not registered")
+		return
+	}
+	plain := map[*ssa.Function]bool{}
+	if f := c.fn("Unify"); f != nil {
+		plain[f] = true
+	}
+	if f := c.method("Env", "Unify"); f != nil {
+		plain[f] = true
+	}
+	var bad ssa.Instruction
+	ncalls := 0
+	for _, g := range withAnon(fn) {
+		eachInstr(g, func(in ssa.Instruction) {
+			if ci, ok := in.(ssa.CallInstruction); ok {
+				if callee := ci.Common().StaticCallee(); callee != nil {
+					ncalls++
+					if plain[callee] {
+						bad = in
+					}
+				}
+			}
+		})
+	}
+	key := fname(fn) + "/unifier"
+	if bad != nil {
+		r.bad(rule, key, c.at(bad), desc, "the plain unification is called: a pair of terms that shares no variable can still have only an infinite unifier (f(X, X) = f(Y, g(Y))), which the predicate must refuse")
+	} else {
+		r.ok(rule, key, c.Pos(fn.Pos()), desc, fmt.Sprintf("%d static calls, none of the plain unification", ncalls), true)
+	}
+}
